@@ -1,6 +1,7 @@
 \* negative control: the offByOne tolerance of decodeXRefSection as coded (F11) must violate LookupOK
 SPECIFICATION Spec
 CONSTANTS OFFBYONE = TRUE
+  NULLZERO = FALSE
   Objs = {1, 2, 3}
   MaxRevs = 2
   Styles = {"one", "each", "runs"}
